@@ -65,7 +65,7 @@ def constants_text(NX, sp, fix, trunc='all'):
         S(sp['fmt']))
     s += 'BodyCodes = %s SplitSet = %s ExtSet = %s TrailerSet = %s TruncMode = "%s" SCloseSet = %s\n' % (
         S(sp['bodies']), S(sp['split']), S(sp['ext']), S(sp['tr']), trunc, S(sp['sclose']))
-    s += ('FixTE = %s FixNoBody = %s Fix1xx = %s FixBadCL = %s FixTrailer = %s FixHold = %s\n'
+    s += ('FixTE = %s FixNoBody = %s Fix1xx = %s FixBadCL = %s FixTrailer = %s FixHold = %s FixStale = %s\n'
           % tuple(str(bool(f)).upper() for f in fix))
     return s
 
@@ -115,7 +115,14 @@ def probe_variant():
     r = Run([{'cm': cm, 'pieces': [cm['trunc']]}])
     r.execute()
     fix_tr = [e for e in r.ev if e['e'] == 'done'][0]['out'] != 'other_error'
-    return (fix_te, fix_nb, fix_1xx, fix_cl, fix_tr, fix_hold)
+    # Content-Length: 0 followed by a surplus octet, then a second exchange on the kept connection
+    cm1 = M.build_cmsg(dict(base, cl='smaller', content=b'x'))
+    cm2 = M.build_cmsg(dict(base, cl='exact'))
+    r = Run([{'cm': cm1, 'pieces': [len(M.sent(cm1))]}, {'cm': cm2, 'pieces': [len(M.sent(cm2))]}])
+    r.execute()
+    d2 = [e for e in r.ev if e['e'] == 'done' and e['x'] == 2]
+    fix_stale = bool(d2) and d2[0]['out'] == 'ok' and b''.join(e['data'] for e in r.ev if e['e'] == 'dl' and e['x'] == 2) == b'abc'
+    return (fix_te, fix_nb, fix_1xx, fix_cl, fix_tr, fix_hold, fix_stale)
 
 
 # ------------------------------------------------------------------ (a) TLC-generated behaviours
@@ -288,7 +295,7 @@ def run(chk):
     warc = pid == 'C04'
     rng = random.Random(chk.seed * 7919 + (4 if warc else 8))
     fix = probe_variant()
-    chk.extra['code_variant'] = dict(zip(['FixTE', 'FixNoBody', 'Fix1xx', 'FixBadCL', 'FixTrailer', 'FixHold'], fix))
+    chk.extra['code_variant'] = dict(zip(['FixTE', 'FixNoBody', 'Fix1xx', 'FixBadCL', 'FixTrailer', 'FixHold', 'FixStale'], fix))
     invs = C04_INVS if warc else C08_INVS
 
     # ---------------- 1. design checks (started now, collected at the end; they run beside the executions)
